@@ -7,6 +7,23 @@ ALL = ["C%02d" % i for i in range(1, 21)]
 
 # id -> (category, level text, level note, technique, design_ref)
 CHECKS = {
+ "C06": ("exploration",
+         "GDSII libraries (shuffled acyclic hierarchies; rectangles CW/CCW, polygons, boxes, paths; SREFs in all 8 right-angle orientations; AREFs with axis-aligned, rotated and skewed lattices incl. > 32767 placements; labels inside/on/outside shapes) are imported with Library::from_gds; each imported cell is flattened with Layout::flatten and compared as a multiset with an independent GDSII-semantics flattener; nets and annotations are compared with exact containment; malformed hierarchies run in isolated child processes and must be rejected.",
+         "Exact oracle for right-angle orientations only. An Err on a valid library satisfies the statement (counted, non-vacuity threshold). Labels in path end-cap bands and doubly-labelled shapes are not judged.",
+         "runtime monitoring: reference flattener oracle + crash isolation for malformed inputs", "DESIGN.md 3 C06"),
+ "C07": ("exploration",
+         "Raw libraries (cell DAGs, 8 orientations, rectangles, rectilinear/45-degree/general polygons incl. U/L shapes, Manhattan paths, nets, 1-4 layers x 6 purposes, all four units) are exported with to_gds and re-imported with the same Layers; units, cells, instance multisets and element multisets (layer/purpose numbers, canonical shape, lower-cased net) must be equal; on the exported GdsLibrary every label must lie inside its shape and every path keep exactly its points.",
+         "Shapes never overlap within a cell; rect and 4-vertex axis-aligned polygon identified; layout-only cells.",
+         "runtime monitoring: round-trip oracle + boundary observation of the exported GDS", "DESIGN.md 3 C07"),
+ "C14": ("exploration",
+         "Raw libraries with layouts and abstracts go to_proto -> from_proto and are compared view by view (instances incl. rotation, annotations, per-layer shape multisets, abstract outline/ports/blockages); exported cell order is checked dependencies-first; protobuf messages built by an independent writer go from_proto -> to_proto and must come back equal (cell order exact, per-layer fields as maps).",
+         "Pico units outside the schema; instance angle None == 0; port/blockage purposes taken from the supplied Layers (not stored in the raw model).",
+         "runtime monitoring: round-trip oracle in both directions over generated libraries/messages", "DESIGN.md 3 C14"),
+ "C20": ("exploration",
+         "Every conversion (raw->GDSII, raw->protobuf, protobuf->raw, GDSII->raw, raw->LEF, LEF->raw, gridded->raw) is run 8 times in one process on inputs rebuilt from their seed (fresh RandomState per HashMap, shifted allocations) and, for a sample, in 8 separate child processes; ordered renderings / hashes of the outputs must be identical. The monitor records how many distinct HashMap iteration orders it saw (one = inconclusive).",
+         "Hash-map-typed outputs have no order and are rendered sorted; GDSII creation timestamps excluded as documented.",
+         "runtime monitoring: repeated-execution differential monitor under varying hash seeds, in- and cross-process", "DESIGN.md 3 C20"),
+
  "C04": ("exploration",
          "LEF library values over the supported statement subset are generated from a seed and rendered to text by an independent renderer in many lexical forms (statement permutations, whitespace/CRLF, comments incl. non-ASCII, mixed-case keywords, alternative decimal spellings, versions 5.3-5.8, with/without END LIBRARY); LefLibrary::open of each text must return exactly the generated value.",
          "Trusted base: the renderer in harness/src/gen/lefgen.rs (keyword spellings typed from the LEF reference). Data-model conventions (quotes kept on string literals, antenna-key and PROPERTY-number spelling kept) are not judged.",
